@@ -239,6 +239,48 @@ Theorem C05_every_history_rewrites : forall Hf fsize cap persist ops1 o st0 c f,
 Proof. exact every_history_rewrites. Qed.
 Print Assumptions C05_every_history_rewrites.
 
+(* The boundary, explicitly.  The committed filter-header tip is part of the
+   state a rewrite changes (XRewrite nb nf: nb may be LOWER than before — the
+   filter headers rolled back below blocks whose block headers stay, without
+   being re-committed; a reset on restart is the rollback to the genesis
+   block).  After ANY history, from ANY state, for ANY arguments (no bound on
+   heights): GetCFilter returns no filter — from the network, the cache or the
+   database, whatever copies they hold — for an unknown hash or for a height
+   above the committed filter-header tip as it is NOW. *)
+Theorem C05_nothing_above_filter_tip : forall Hf fsize cap persist ops1 o st0 c,
+  let st := xfinal Hf fsize cap persist st0 ops1 in
+  call_of o = Some c ->
+  c_known c = false \/ xbest st < c_blk c \/ c_blk c < 0 ->
+  is_err (o_res (snd (xstep Hf fsize cap persist st o))) = true.
+Proof. exact nothing_above_filter_tip. Qed.
+Print Assumptions C05_nothing_above_filter_tip.
+
+(* ... per call: a returned filter is for a known block at 0 <= height <= tip. *)
+Theorem C05_returned_has_committed_header : forall Hf fh fsize best cap persist st c f,
+  o_res (snd (get_cfilter Hf fh fsize best cap persist st c)) = RFilter f ->
+  c_known c = true /\ 0 <= c_blk c <= best.
+Proof. exact get_cfilter_has_header. Qed.
+Print Assumptions C05_returned_has_committed_header.
+
+(* Non-vacuity of the boundary (ex_Hf / ex_fh, tip 5): blocks 3..5 fetched and
+   persisted; the filter headers are rolled back to block 3; block 5, cached
+   and stored, is refused (without the network: an empty range), block 4 with
+   a reverse batch of 2 fetches its verifiable neighbour 3 only and fails,
+   block 3 — at the tip — is served from the cache. *)
+Example C05_above_tip_nonvacuous :
+  let st0 := {| base := {| cache := []; db := []; dbq := [] |}; hdrs := ex_fh; xbest := 5 |} in
+  let call b batch rs := {| c_blk := b; c_known := true; c_ftype_ok := true; c_batch := batch; c_maxbatch := 2;
+                            c_resps := rs; c_verdict := VOk |} in
+  let ops := [ XBase (Call {| c_blk := 3; c_known := true; c_ftype_ok := true; c_batch := 1; c_maxbatch := 3;
+                               c_resps := [ex_r 3 102; ex_r 4 103; ex_r 5 104]; c_verdict := VOk |});
+               XBase (Flush 10); XRewrite 3 ex_fh;
+               XBase (Call (call 5 0 [ex_r 5 104])); XBase (Call (call 4 2 [ex_r 4 103; ex_r 3 102]));
+               XBase (Call (call 3 0 [])) ] in
+  map (fun o => (o_res o, o_queried o, o_range o)) (xrun ex_Hf (fun _ => 10) 1000 true st0 ops) =
+  [ (RFilter 102, true, (3, 5)); (RNone, false, (0, 0)); (RNone, false, (0, 0));
+    (RErrOther, false, (0, 0)); (RErrFetch, true, (3, 3)); (RFilter 102, false, (0, 0)) ].
+Proof. vm_compute. reflexivity. Qed.
+
 (* A filter fetched from the network satisfies the relation for the headers
    committed at the time of the call's snapshot, and so does everything the
    call adds to the cache. *)
